@@ -130,6 +130,8 @@ def wellformed(run, ent, op, parents):
         noop = (op["k"] == "proj" and set(op["cols"]) == set(t.mv.cols)) or \
                (op["k"] == "sort" and not op["terms"]) or \
                (op["k"] == "xfer" and op["to"] == t.mv.engine)
+        if noop and isinstance(t.rel.engine, sql.Engine) and not isinstance(t.rel, sql.Select):
+            noop = False      # an un-conformed SQL relation (user marker at the root) is legitimately conformed first
         if noop:
             run.probes["noop_calls"] += 1
             if ent.rel is not t.rel:
@@ -206,8 +208,8 @@ def locked_identity(run, ent, op, parents):
 
 # ------------------------------------------------------------------------ C17
 def conformed(run, ent, op, parents):
-    if not isinstance(ent.rel.engine, sql.Engine):
-        return
+    if not isinstance(ent.rel.engine, sql.Engine) or op["k"] == "mark":
+        return          # (a user-defined marker around a SQL relation was not produced by the engine's factories)
     w = run.w
     try:
         c = w.sql.conform(ent.rel)
